@@ -14,6 +14,21 @@ theorem C14_noninterference (w : Nat) (sched : Sys.Sched) (t : Nat) :
   have h := (noninterference_from w t sched {}).1
   simpa [Sys.get] using h
 
+/-- … and not only what it observes: the *state* every thread ends in — input view, output, write
+    position, log ring, interner, pending destinations and plans — is the state of its own script
+    run alone, so nothing another thread did can show up in any later operation either -/
+theorem C14_state_noninterference (w : Nat) (sched : Sys.Sched) (t : Nat) :
+    (Sys.runSched w {} sched).1.get t = (Thread.run w {} (script t sched)).1 := by
+  have h := (noninterference_from w t sched {}).2
+  simpa [Sys.get] using h
+
+/-- the same from any point of a run: continuing any reachable system with any further schedule,
+    each thread continues as it would alone from where it stood -/
+theorem C14_noninterference_from_any_point (w : Nat) (s : Sys) (sched : Sys.Sched) (t : Nat) :
+    obs t (Sys.runSched w s sched).2 = (Thread.run w (s.get t) (script t sched)).2 ∧
+    (Sys.runSched w s sched).1.get t = (Thread.run w (s.get t) (script t sched)).1 :=
+  noninterference_from w t sched s
+
 /-- the model keeps every piece of mutable state per thread; this is justified by the regenerated
     inventory of the crates' global items: every one compiled natively is `thread_local!` (kind 0)
     or immutable (kind 3) -/
